@@ -13,13 +13,6 @@ use vcore::{Ctx, Outcome, Property, Tier};
 /// sparse: 16 set bits per leaf, fan-out 16 (16 / 256 / 4096 set bits per level); 128 elsewhere.
 pub const BLOCKS: [usize; 8] = [63, 64, 504, 1449, 16, 128, 256, 4096];
 
-/// 23 words of 63 bits: the block of `cf_rrr`.
-pub const CF_RRR_BLOCK: usize = 23 * 63;
-
-/// Finding: `cf_rrr::BitVector::rank(len)` (and `rank0`, and the default `select0`/`select` built
-/// on them) is `None` when `len` is a positive multiple of 1449.
-pub const FINDING_CF_RRR_RANK_AT_LEN: &str = "C19-cf_rrr-rank-at-len";
-
 #[derive(Clone, Debug, Serialize, Deserialize)]
 pub struct BitCase {
     pub class: String,
@@ -228,9 +221,7 @@ fn index_set(limit: usize, probes: &[u16], extra: &[usize]) -> Vec<usize> {
     v
 }
 
-/// `skip_rank_at_len`: do not compare rank(len) / rank0(len) (known-finding exclusion, see
-/// `FINDING_CF_RRR_RANK_AT_LEN`).
-fn check_bitvector<B: BitVector>(tag: &str, bv: &B, c: &BitCase, p: &Plain, skip_rank_at_len: bool, o: &mut Outcome) {
+fn check_bitvector<B: BitVector>(tag: &str, bv: &B, c: &BitCase, p: &Plain, o: &mut Outcome) {
     let n = p.bits.len();
     let total = p.ones.len();
     let ctx = || format!("{} vector of {} bits, {} set", c.class, n, total);
@@ -266,9 +257,6 @@ fn check_bitvector<B: BitVector>(tag: &str, bv: &B, c: &BitCase, p: &Plain, skip
                 o.fail(format!("{tag}:access_rank"), format!("{tag}.access_rank({i}) = {ar:?}, expected ({}, {}); {}", p.bits[i], p.rank[i], ctx()));
                 return;
             }
-        }
-        if i == n && skip_rank_at_len {
-            continue;
         }
         let r = bv.rank(i);
         if r != Some(p.rank[i]) {
@@ -327,7 +315,7 @@ fn check_bitvector<B: BitVector>(tag: &str, bv: &B, c: &BitCase, p: &Plain, skip
                 return;
             }
         }
-        for k in [cnt + 1, cnt + 2, cnt + 63, cnt + 64, cnt + 1449, n + 1, n + 2, 2 * n + 1500] {
+        for k in [cnt + 1, cnt + 2, cnt + 63, cnt + 64, cnt + 1449, n + 1, n + 2, 2 * n + 1500, (1 << 32) + 1, 1 << 40, usize::MAX / 2, usize::MAX - 1, usize::MAX] {
             if k <= cnt {
                 continue;
             }
@@ -367,37 +355,6 @@ fn describe(c: &BitCase, p: &Plain, o: &mut Outcome) {
     o.nontrivial = n >= 127 && both && p.ones.len() > 16;
 }
 
-/// Finding shared with the document part: `sparse::BitVector::select(k)` does not range-check
-/// `k` (overflow in `Leaf::select`, `k / fan-out` subtractions in deeper trees).
-pub const FINDING_SELECT_OVERFLOW: &str = "C19-sparse-select-overflow";
-
-/// select(k) for k near usize::MAX must be None.  Only asked in strict mode and of one-level
-/// trees (deeper ones take k / fan-out steps to answer); counted as excluded otherwise.
-fn select_far_out_of_range(ctx: &Ctx, c: &BitCase, p: &Plain, branch: usize, o: &mut Outcome) {
-    if !ctx.strict {
-        o.excluded.push(FINDING_SELECT_OVERFLOW.to_string());
-        return;
-    }
-    if p.ones.len() > branch {
-        return;
-    }
-    let mut buf = Vec::new();
-    let mut builder = Builder::new(&mut buf);
-    if sparse::BitVector::from_indices(branch, p.bits.len(), &p.ones, &mut builder).is_none() {
-        return;
-    }
-    drop(builder);
-    if let Some(bv) = sparse::BitVector::new(&buf) {
-        for k in [usize::MAX / 2, usize::MAX - 1, usize::MAX] {
-            let got = bv.select(k);
-            if got.is_some() {
-                o.fail("sparse:select-out-of-range", format!("sparse.select({k}) = {got:?} but only {} bits are set; {} vector of {} bits", p.ones.len(), c.class, p.bits.len()));
-                return;
-            }
-        }
-    }
-}
-
 #[derive(Clone, Copy, Debug)]
 pub enum Impl {
     Reference,
@@ -409,7 +366,7 @@ pub enum Impl {
 
 pub struct BitVectors(pub Impl);
 
-fn via_trait<B: BitVector>(tag: &str, c: &BitCase, p: &Plain, skip_rank_at_len: bool, o: &mut Outcome) {
+fn via_trait<B: BitVector>(tag: &str, c: &BitCase, p: &Plain, o: &mut Outcome) {
     let mut buf = Vec::new();
     let mut builder = Builder::new(&mut buf);
     if let Err(e) = B::construct(&p.bits, &mut builder) {
@@ -418,7 +375,7 @@ fn via_trait<B: BitVector>(tag: &str, c: &BitCase, p: &Plain, skip_rank_at_len: 
     }
     drop(builder);
     match B::parse(&buf) {
-        Ok((bv, _)) => check_bitvector(tag, &bv, c, p, skip_rank_at_len, o),
+        Ok((bv, _)) => check_bitvector(tag, &bv, c, p, o),
         Err(e) => o.fail(format!("{tag}:parse-error"), format!("{tag}::parse of freshly constructed bytes = Err({e:?}) for a {} vector of {} bits", c.class, p.bits.len())),
     }
 }
@@ -451,30 +408,15 @@ impl Property for BitVectors {
         let _ = ctx;
         bit_case(max)
     }
-    fn run(&self, ctx: &Ctx, c: &BitCase) -> Outcome {
+    fn run(&self, _: &Ctx, c: &BitCase) -> Outcome {
         let mut o = Outcome::pass();
         let p = Plain::new(c.bits());
         describe(c, &p, &mut o);
         match self.0 {
-            Impl::Reference => via_trait::<ReferenceBitVector>("reference", c, &p, false, &mut o),
-            Impl::Rrr => via_trait::<rrr::BitVector>("rrr", c, &p, false, &mut o),
-            Impl::CfRrr => {
-                // cf_rrr.rank(len) is None whenever len is a positive multiple of the 1449-bit
-                // block.  Outside strict mode the comparison at that single index is dropped
-                // (and counted) so that the search goes on; replays keep it.
-                let n = p.bits.len();
-                let trigger = n > 0 && n % CF_RRR_BLOCK == 0;
-                if trigger && !ctx.strict {
-                    o.excluded.push(FINDING_CF_RRR_RANK_AT_LEN.to_string());
-                }
-                via_trait::<cf_rrr::BitVector>("cf_rrr", c, &p, trigger && !ctx.strict, &mut o)
-            }
-            Impl::Sparse => {
-                via_trait::<sparse::BitVector>("sparse", c, &p, false, &mut o);
-                if !o.failed() {
-                    select_far_out_of_range(ctx, c, &p, 16, &mut o);
-                }
-            }
+            Impl::Reference => via_trait::<ReferenceBitVector>("reference", c, &p, &mut o),
+            Impl::Rrr => via_trait::<rrr::BitVector>("rrr", c, &p, &mut o),
+            Impl::CfRrr => via_trait::<cf_rrr::BitVector>("cf_rrr", c, &p, &mut o),
+            Impl::Sparse => via_trait::<sparse::BitVector>("sparse", c, &p, &mut o),
             Impl::SparseIndices => {
                 o.label(format!("branch:{}", c.branch));
                 let mut buf = Vec::new();
@@ -485,12 +427,7 @@ impl Property for BitVectors {
                 }
                 drop(builder);
                 match sparse::BitVector::new(&buf) {
-                    Some(bv) => {
-                        check_bitvector("sparse-indices", &bv, c, &p, false, &mut o);
-                        if !o.failed() {
-                            select_far_out_of_range(ctx, c, &p, c.branch, &mut o);
-                        }
-                    }
+                    Some(bv) => check_bitvector("sparse-indices", &bv, c, &p, &mut o),
                     None => o.fail("sparse-indices:parse-error", format!("BitVector::new refused freshly built bytes (branch {})", c.branch)),
                 }
             }
